@@ -143,8 +143,15 @@ fn is_inert_element(orig_node: &Node<impl CustomNode>) -> bool {
                             match attr {
                                 NodeAttribute::Block(_) => return false,
                                 NodeAttribute::Attribute(attr) => {
+                                    // `class:`, `style:`, `prop:`, `on:`, `use:`, `bind:`,
+                                    // `inner_html` and `node_ref` are instructions to the
+                                    // builder, with or without a value: they are never
+                                    // plain HTML attributes that could be written out as-is
                                     let static_key =
-                                        !matches!(attr.key, NodeName::Block(_));
+                                        !matches!(attr.key, NodeName::Block(_))
+                                            && !is_special_key(
+                                                &attr.key.to_string(),
+                                            );
 
                                     let static_value = match attr
                                         .possible_value
@@ -154,12 +161,7 @@ fn is_inert_element(orig_node: &Node<impl CustomNode>) -> bool {
                                         Some(value) => {
                                             matches!(&value.value, KVAttributeValue::Expr(expr) if {
                                                 if let Expr::Lit(lit) = expr {
-                                                    let key = attr.key.to_string();
-                                                    if key.starts_with("style:") || key.starts_with("prop:") || key.starts_with("on:") || key.starts_with("use:") || key.starts_with("bind") {
-                                                        false
-                                                    } else {
-                                                        matches!(&lit.lit, Lit::Str(_))
-                                                    }
+                                                    matches!(&lit.lit, Lit::Str(_))
                                                 } else {
                                                     false
                                                 }
@@ -184,6 +186,18 @@ fn is_inert_element(orig_node: &Node<impl CustomNode>) -> bool {
     }
 
     true
+}
+
+/// Attribute keys that the builder path does not render as an HTML attribute of that name.
+fn is_special_key(key: &str) -> bool {
+    key.starts_with("class:")
+        || key.starts_with("style:")
+        || key.starts_with("prop:")
+        || key.starts_with("on:")
+        || key.starts_with("use:")
+        || key.starts_with("bind")
+        || key == "inner_html"
+        || key == "node_ref"
 }
 
 enum Item<'a, T> {
